@@ -367,8 +367,14 @@ Fixpoint child_infos (cfg : config) (ens : bool) (parent : tag) (cs : list child
   end.
 
 (* Dict displays: AST order is keys..., values...; Python evaluates k1, v1, k2, v2 *)
+(* Set displays with a starred item are built incrementally (the items before the star are hashed
+   before the starred operand is evaluated): outside the semantics of AnfSem *)
 Definition arity_ok (k : tag) (cs : list child) : bool :=
-  match k with KDict => Nat.leb (List.length cs) 2 | _ => true end.
+  match k with
+  | KDict => Nat.leb (List.length cs) 2
+  | KSet => forallb (fun c : child => plain (snd (fst c))) cs
+  | _ => true
+  end.
 
 Fixpoint guard_expr (cfg : config) (e : expr) (n : nat) : bool :=
   match e with
